@@ -4150,6 +4150,18 @@ impl Interpreter {
                 Ok(Guarded::unguarded(JsValue::Undefined))
             }
 
+            JsFunction::PromiseAnySettle {
+                state,
+                index,
+                is_fulfill,
+            } => {
+                let value = args.first().cloned().unwrap_or(JsValue::Undefined);
+                builtins::promise::handle_promise_any_settle(
+                    self, &state, index, value, is_fulfill,
+                )?;
+                Ok(Guarded::unguarded(JsValue::Undefined))
+            }
+
             JsFunction::AccessorGetter => {
                 // Auto-accessor getter - read from storage slot on `this`
                 let storage_key_prop = self.intern("__accessor_storage_key__");
